@@ -36,6 +36,7 @@ def showCfg (D args file : Layer) : String :=
 
 def parseInt? (s : String) : Option Int := s.toInt?
 
+/-- `t=<unix>.<nsec>|zero off=<minutes> [offs=<extra seconds>]`: `time.Unix(…).In(FixedZone("op", off*60+offs))` -/
 def genesisOfOp (o : Op) : Option GenesisFile.Genesis := do
   let ts := o.str "t"
   let (u, n) ← (if ts = "zero" then some (GenesisFile.zeroUnix, 0) else
@@ -43,14 +44,15 @@ def genesisOfOp (o : Op) : Option GenesisFile.Genesis := do
     | [a, b] => do let u ← parseInt? a; let n ← b.toNat?; pure (u, n)
     | _ => none)
   let off ← parseInt? (o.str "off")
+  let offs ← (match o.get? "offs" with | none => some (0 : Int) | some s => parseInt? s)
   let pa ← (if o.str "pa" = "nil" then some none else (Bytes.ofHex (o.str "pa")).map some)
   let cid ← Bytes.ofHex (o.str "cid")
   let ih ← o.nat? "ih"
-  pure { chainId := cid, time := { unix := u, nsec := n, offMin := off, locName := "op" }, initialHeight := ih, proposer := pa }
+  pure { chainId := cid, time := GenesisFile.GoTime.ofUnix u n (off * 60 + offs) "op", initialHeight := ih, proposer := pa }
 
 def showGenesis (g : GenesisFile.Genesis) : String :=
   let pa := match g.proposer with | none => "nil" | some b => Bytes.toHexTok b
-  s!"cid={Bytes.toHexTok g.chainId} ih={g.initialHeight} t={g.time.unix}.{g.time.nsec} off={g.time.offMin} pa={pa}"
+  s!"cid={Bytes.toHexTok g.chainId} ih={g.initialHeight} t={g.time.unix}.{g.time.nsec} offs={g.time.offSec} pa={pa}"
 
 def showLoad : Except GenesisFile.LoadErr GenesisFile.Genesis → String
   | .ok g => "ok " ++ showGenesis g
@@ -87,7 +89,7 @@ def stepCfg (D : Layer) (o : Op) : Layer × String :=
         (D, "ok reached=" ++ (if r.isEmpty then "-" else String.intercalate "," r))
       | none => (D, "err:flag-parse")
     | _ => (D, "bad-op")
-  | "save" =>
+  | "save" | "savex" =>   -- (`savex`: old name for saves of values the YAML pair does not preserve; same op)
     -- `fl=`: the command line of the command the configuration is loaded back through (default: none)
     let args := parsePairs (o.str "fl") false
     if !argsOK table args then (D, "err:flag-parse") else
@@ -96,10 +98,12 @@ def stepCfg (D : Layer) (o : Op) : Layer × String :=
       match set.lookup go with
       | some v => v
       | none => ((table.fields.find? (fun f => f.go = go)).map (·.dflt)).getD ""
-    let file := save table c
-    (nextDefaults table D args file, s!"ok cfg={showCfg D args file}")
+    -- value level: what the YAML writer/reader pair makes of every string option (`Model/ConfigYaml.lean`)
+    match loadSaved table args c id with
+    | .unmodelled => (D, "unmodelled")
+    | .error => (D, "err:load")
+    | .ok file => (nextDefaults table D args file, s!"ok cfg={showCfg D args file}")
   | "loadx" => (D, "checked")   -- values not of the option's type / malformed files: not predicted
-  | "savex" => (D, "checked")   -- values on which the YAML writer and reader disagree: not predicted
   | _ => (D, "bad-op")
 
 def step (s : St) (line : String) : St × String :=
@@ -114,9 +118,12 @@ def step (s : St) (line : String) : St × String :=
       let v := match GenesisFile.validate g with | none => "ok" | some r => "err:" ++ r.toString
       -- no `at`: a fresh path for this op only
       let p := match slot with | some (some p) => p + 1 | _ => 0
-      let disk := GenesisFile.saveAt s.disk p g
-      let l := showLoad (GenesisFile.loadAt disk p)
-      ({ s with disk := if p = 0 then s.disk else disk }, s!"val={v} load={l}")
+      match GenesisFile.saveAt s.disk p g with
+      | .error e => (s, s!"val={v} file=err:{e.toString} load=err:save")   -- nothing written, nothing loaded
+      | .ok disk =>
+        let file := match disk.read p with | some bs => Bytes.toHexTok bs | none => "-"
+        let l := showLoad (GenesisFile.loadAt disk p)
+        ({ s with disk := if p = 0 then s.disk else disk }, s!"val={v} file={file} load={l}")
   | "gload" =>
     match slotOf o with
     | some (some p) => (s, "load=" ++ showLoad (GenesisFile.loadAt s.disk (p + 1)))
